@@ -426,8 +426,9 @@ def cplx(vals, shape):
     size = int(np.prod(shape)) if len(shape) else 1
     if len(vals) != 2 * size:
         raise HarnessError("array of wrong size")
-    out = np.array(vals[:size], dtype=np.int64)\
-        + 1j * np.array(vals[size:], dtype=np.int64)
+    kind = np.int64 if all(isinstance(v, int) for v in vals) else float
+    out = np.array(vals[:size], dtype=kind)\
+        + 1j * np.array(vals[size:], dtype=kind)
     return out.reshape(tuple(shape))
 
 
